@@ -66,7 +66,9 @@ func ruleCanonicalOrder(c *Ctx, rule string) {
 	sf := c.P.Fn("internal/util.SortedByPublicKey")
 	if c.Anchor(rule, "internal/util.SortedByPublicKey", sf != nil) {
 		reads := participantFieldsRead(sf)
-		sorts := len(callsIn(sf, func(ci ssa.CallInstruction) bool { return calleeName(ci) == "sort.Slice" || calleeName(ci) == "sort.SliceStable" })) > 0
+		sorts := len(callsIn(sf, func(ci ssa.CallInstruction) bool {
+			return calleeName(ci) == "sort.Slice" || calleeName(ci) == "sort.SliceStable"
+		})) > 0
 		c.Ok(rule, "SortedByPublicKey orders participants by public key only", c.P.Pos(sf.Pos()), sorts && reads["Key"] && len(reads) == 1, "participant fields compared: "+strings.Join(sortedKeys(reads), ","))
 	}
 	// setupDKG: the slice handed to the config builders and to the broadcaster
@@ -192,7 +194,9 @@ func ruleIndexConsistency(c *Ctx, rule string) {
 		for _, ci := range callsIn(se, func(ci ssa.CallInstruction) bool { return strings.HasSuffix(calleeName(ci), "internal/dkg.asGroup") }) {
 			a := ci.Common().Args
 			c.Ok(rule, "asGroup is given the state of this execution, its share and the qualified nodes", shortPos(c.P, ci),
-				a[1] == ssa.Value(paramOfType(se, "internal/dkg.DBState")) && hasOrigin(Origins(a[2]), func(o Origin) bool { return o.Kind == "alloc" || o.Kind == "recv" || o.Kind == "field" || o.Kind == "other" || o.Kind == "call" }), "")
+				a[1] == ssa.Value(paramOfType(se, "internal/dkg.DBState")) && hasOrigin(Origins(a[2]), func(o Origin) bool {
+					return o.Kind == "alloc" || o.Kind == "recv" || o.Kind == "field" || o.Kind == "other" || o.Kind == "call"
+				}), "")
 		}
 	}
 }
@@ -269,7 +273,9 @@ func ruleEchoBroadcastOrder(c *Ctx, rule string) {
 		return
 	}
 	var ver *ssa.Call
-	for _, ci := range callsIn(fn, func(ci ssa.CallInstruction) bool { return strings.HasSuffix(calleeName(ci), "kyber/share/dkg.VerifyPacketSignature") }) {
+	for _, ci := range callsIn(fn, func(ci ssa.CallInstruction) bool {
+		return strings.HasSuffix(calleeName(ci), "kyber/share/dkg.VerifyPacketSignature")
+	}) {
 		ver = ci.(*ssa.Call)
 	}
 	if ver == nil {
@@ -328,7 +334,9 @@ func updateTransactions(c *Ctx, fn *ssa.Function) (nUpd int, puts []int) {
 				p += len(callsIn(f, func(x ssa.CallInstruction) bool {
 					return strings.HasSuffix(calleeName(x), "bbolt.Bucket).Put") || strings.HasSuffix(calleeName(x), "bbolt.Bucket).Delete")
 				}))
-				for _, x := range callsIn(f, func(x ssa.CallInstruction) bool { return x.Common().StaticCallee() != nil && isSubjectPkg(fnPkgPath(x.Common().StaticCallee())) }) {
+				for _, x := range callsIn(f, func(x ssa.CallInstruction) bool {
+					return x.Common().StaticCallee() != nil && isSubjectPkg(fnPkgPath(x.Common().StaticCallee()))
+				}) {
 					p += len(callsIn(x.Common().StaticCallee(), func(y ssa.CallInstruction) bool { return strings.HasSuffix(calleeName(y), "bbolt.Bucket).Put") }))
 				}
 			}
@@ -358,7 +366,9 @@ func ruleSingleTransactions(c *Ctx, rule string) {
 		nUpd, puts := updateTransactions(c, fn)
 		// SaveCurrent may delegate to a helper that opens the transaction
 		if nUpd == 0 {
-			for _, x := range callsIn(fn, func(x ssa.CallInstruction) bool { return x.Common().StaticCallee() != nil && isSubjectPkg(fnPkgPath(x.Common().StaticCallee())) }) {
+			for _, x := range callsIn(fn, func(x ssa.CallInstruction) bool {
+				return x.Common().StaticCallee() != nil && isSubjectPkg(fnPkgPath(x.Common().StaticCallee()))
+			}) {
 				n2, p2 := updateTransactions(c, x.Common().StaticCallee())
 				nUpd += n2
 				puts = append(puts, p2...)
